@@ -18,6 +18,7 @@ from __future__ import annotations
 
 import ast
 import linecache
+import os
 import random
 import sys
 import warnings
@@ -373,21 +374,27 @@ def observe(cases: list[dict], chunk: int = 400) -> list[dict]:
 # --------------------------------------------------------------------------- adjudication
 
 
-def _cfg(name: str) -> Optional[dict[str, str]]:
-    """VERIF_C20_FIXED=boolop,exact,ell (experiments with proposed repairs applied to a copy of the
-    repository, see VERIF_REPO): the same cfg with the model's Fixed constant set accordingly."""
+def _cfg(name: str, seed: Optional[int] = None) -> Optional[dict[str, str]]:
+    """The cfg with run-dependent constants filled in: EmitRes (which residue class of body hashes is
+    emitted for replay) from the seed, and -- for experiments with proposed repairs applied to a copy
+    of the repository (VERIF_REPO) -- Fixed from VERIF_C20_FIXED=boolop,exact,ell."""
     import os
+    import re
 
-    fixed = [x for x in os.environ.get("VERIF_C20_FIXED", "").split(",") if x]
-    if not fixed:
-        return None
     text = (core.SPEC / "mc" / name).read_text()
-    return {name: text.replace("Fixed = {}", "Fixed = {" + ", ".join(f'"{x}"' for x in fixed) + "}")}
-
+    orig = text
+    fixed = [x for x in os.environ.get("VERIF_C20_FIXED", "").split(",") if x]
+    if fixed:
+        text = text.replace("Fixed = {}", "Fixed = {" + ", ".join(f'"{x}"' for x in fixed) + "}")
+    m = re.search(r"EmitMod = (\d+)", text)
+    if m and seed is not None:
+        text = re.sub(r"EmitRes = \d+", f"EmitRes = {seed % int(m.group(1))}", text)
+    return {name: text} if text != orig else None
 
 
 def _nontrivial(case: dict) -> bool:
-    return len(case["ta"]) > 1 or len(case["tb"]) > 1 or "Any" in case["ta"] + case["tb"] or case["call"]["star"] or case["call"]["dstar"]
+    return (len(case["ta"]) > 1 or len(case["tb"]) > 1 or "Any" in case["ta"] + case["tb"]
+            or case["call"]["star"] or case["call"]["dstar"])
 
 
 def adjudicate(obs: list[dict]) -> tuple[dict, dict]:
@@ -463,7 +470,7 @@ def run(check: core.Check) -> None:
     def model_check(cfg: str) -> core.TLCResult:
         if cfg == "TypeEval.cov.cfg":  # vacuity control: the generator alone, with -coverage
             return core.run_tlc("TypeEval", cfg, coverage=True, workers=4, timeout=3000)
-        return core.run_tlc("TypeEvalEmit", cfg, workers=workers, timeout=3000, extra_files=_cfg(cfg))
+        return core.run_tlc("TypeEvalEmit", cfg, workers=workers, timeout=3000, extra_files=_cfg(cfg, check.seed), heap="10g")
 
     # TLC's -coverage cost model expands every operator per call path and exhausts the heap on the
     # mutually recursive interpreters; action coverage is therefore taken from a run of the generator
@@ -489,14 +496,14 @@ def run(check: core.Check) -> None:
     for cfg, inv in (("TypeEval.strict1.cfg", "EvalFollowsSpecStrict"), ("TypeEval.strict2.cfg", "OverApproximatesStrict"),
                      ("TypeEval.sens.cfg", "EvalFollowsSpec")):
         r = core.run_tlc("TypeEval", cfg, workers=4, timeout=900, extra_files=_cfg(cfg))
-        if r.violated != inv and not _cfg(cfg):
+        if r.violated != inv and not os.environ.get("VERIF_C20_FIXED"):
             raise core.MachineryError(f"sensitivity self-test failed: {inv} not violated under {cfg}: {r.error}")
     check.cov["sensitivity"] = (
         "EvalFollowsSpecStrict and OverApproximatesStrict are violated on the model (the named deviations are real); "
         "with Bug = any_matches (exclude_any ignored in the Impl model) EvalFollowsSpec is violated"
     )
     # S->C replay, adjudicated by TLC
-    limit = 30000 if quick else 400000
+    limit = 30000 if quick else 300000
     probes = [c for c in cases if _is_probe(c)]
     others = [c for c in cases if not _is_probe(c)]
     exhaustive = len(cases) <= limit
